@@ -110,6 +110,45 @@ func floatFixSweep[S constraints.Float, D constraints.Integer](w *numWriter, rng
 	shuffledBlocks(rng, conv, xs, 600, func(x S, y D) { w.emit(&NEvent{Op: "P", F: floatJ(float64(x)), Y: numOfInt(y)}) })
 }
 
+// floatFixChained: the source of the float -> fixed conversion is the very buffer object a fixed -> float conversion
+// of the library produced (full-scale codes give exactly +-1.0), and a slice of it into which out-of-range samples
+// are then written through the parent; unordered scan.
+func floatFixChained[S constraints.Float, D constraints.Integer](w *numWriter, rng *rand.Rand, fn, sty, dty string,
+	conv func(*signal.Buffer[S], *signal.Buffer[D]) int, fromS func(*signal.Buffer[int64], *signal.Buffer[S]) int, fromU func(*signal.Buffer[uint16], *signal.Buffer[S]) int) {
+	w.start(&NEvent{Fam: "floatfix", Fn: fn, STy: sty, DTy: dty, Sd: floatBits[S](), Ds: b2i(isSigned[D]()), Dd: bitsOf[D](), Uo: 1})
+	codes := []int64{math.MaxInt64, math.MinInt64, 0, 1, -1, math.MaxInt64 / 2, math.MinInt64 / 2, math.MaxInt64 - 1, math.MinInt64 + 1}
+	for i := 0; i < 7; i++ {
+		codes = append(codes, int64(rng.Uint64()))
+	}
+	n := len(codes)
+	a := signal.Alloc[int64](signal.Allocator{Channels: 1, Length: n, Capacity: n})
+	for i, c := range codes {
+		a.SetSample(i, c)
+	}
+	f := signal.Alloc[S](signal.Allocator{Channels: 1, Length: n, Capacity: n})
+	fromS(a, f)
+	emit := func(src *signal.Buffer[S]) {
+		dst := signal.Alloc[D](signal.Allocator{Channels: 1, Length: src.Len(), Capacity: src.Len()})
+		conv(src, dst)
+		for i := 0; i < src.Len(); i++ {
+			w.emit(&NEvent{Op: "P", F: floatJ(float64(src.Sample(i))), Y: numOfInt(dst.Sample(i))})
+		}
+	}
+	emit(f)
+	view := f.Slice(0, n) // shares storage with f
+	f.SetSample(2, S(1.5))
+	f.SetSample(3, S(-3))
+	f.SetSample(4, S(math.Inf(1)))
+	emit(view)
+	u := signal.Alloc[uint16](signal.Allocator{Channels: 1, Length: 4, Capacity: 4})
+	for i, c := range []uint16{65535, 0, 32768, 40000} {
+		u.SetSample(i, c)
+	}
+	g := signal.Alloc[S](signal.Allocator{Channels: 1, Length: 4, Capacity: 4})
+	fromU(u, g)
+	emit(g)
+}
+
 // fixFloatSweep: C09 for one instantiation; back is the matching float -> fixed function.
 func fixFloatSweep[S constraints.Integer, D constraints.Float](w *numWriter, rng *rand.Rand, fn, sty, dty string,
 	conv func(*signal.Buffer[S], *signal.Buffer[D]) int, back func(*signal.Buffer[D], *signal.Buffer[S]) int, nrand int, exhaustive16 bool) {
@@ -350,6 +389,37 @@ func floatFloatSweep[S, D constraints.Float](w *numWriter, rng *rand.Rand, sty, 
 }
 
 // ---- C16 --------------------------------------------------------------------------------------------
+// depthBurst calls the bit-depth functions for every depth as fast as possible (no I/O in between) and returns the
+// results as events; goroutine g starts at a different depth so that the first calls differ.
+func depthBurst(g int) []*NEvent {
+	type res struct {
+		b          int
+		maxS, minS int64
+		maxU       uint64
+		cs, cs2    int64
+		cu, cu2    uint64
+	}
+	rs := make([]res, 0, 64)
+	for k := 0; k < 64; k++ {
+		b := 1 + (k+g*5)%64
+		bd := signal.BitDepth(b)
+		r := res{b: b}
+		r.maxS, r.minS, r.maxU = bd.MaxSignedValue(), bd.MinSignedValue(), bd.MaxUnsignedValue()
+		r.cs = bd.SignedValue(math.MinInt64 + 5)
+		r.cs2 = bd.SignedValue(r.cs)
+		r.cu = bd.UnsignedValue(math.MaxUint64 - 5)
+		r.cu2 = bd.UnsignedValue(r.cu)
+		rs = append(rs, r)
+	}
+	var out []*NEvent
+	for _, r := range rs {
+		out = append(out, &NEvent{Op: "MaxS", B: r.b, Y: numOfI64(r.maxS)}, &NEvent{Op: "MinS", B: r.b, Y: numOfI64(r.minS)}, &NEvent{Op: "MaxU", B: r.b, Y: numOfU64(r.maxU)},
+			&NEvent{Op: "ClipS", B: r.b, X: numOfI64(math.MinInt64 + 5), Y: numOfI64(r.cs), Z: numOfI64(r.cs2)},
+			&NEvent{Op: "ClipU", B: r.b, X: numOfU64(math.MaxUint64 - 5), Y: numOfU64(r.cu), Z: numOfU64(r.cu2)})
+	}
+	return out
+}
+
 // depthSweepPart records the depths b with b % of == part (and the Scale table when withScale).
 func depthSweepPart(ws []*numWriter, rng *rand.Rand, nrand int, full bool, part, of int, withScale bool) {
 	for b := 1; b <= 64; b++ {
